@@ -181,7 +181,6 @@ fn c02_approve(m: usize) -> u8 {
 }
 // HARNESS props=C02,C01 tier=quick profile=gw_appr1 shape="batch M=1; arbitrary prior status; witness key; strings <=2 bytes"
 #[kani::proof]
-#[kani::unwind(130)]
 #[kani::stub(crate::auth::validate_proof, stub_validate_proof)]
 fn c02_approve_m1() {
     let o = c02_approve(1);
@@ -191,7 +190,6 @@ fn c02_approve_m1() {
 }
 // HARNESS props=C02,C01 tier=quick profile=gw_appr1 shape="empty batch"
 #[kani::proof]
-#[kani::unwind(130)]
 #[kani::stub(crate::auth::validate_proof, stub_validate_proof)]
 fn c02_approve_m0() {
     let o = c02_approve(0);
@@ -199,7 +197,6 @@ fn c02_approve_m0() {
 }
 // HARNESS props=C02,C01 tier=quick profile=gw_appr2 shape="batch M=2 incl. in-batch duplicates"
 #[kani::proof]
-#[kani::unwind(200)]
 #[kani::stub(crate::auth::validate_proof, stub_validate_proof)]
 fn c02_approve_m2() {
     let o = c02_approve(2);
@@ -243,7 +240,6 @@ fn any_set(env: &Env, n: usize) -> WeightedSigners {
 }
 // HARNESS props=C03,C08,C06,C09,C01 tier=quick profile=gw_rot shape="candidate set N=1; bypass symbolic; operator one of 3 principals; arbitrary auths"
 #[kani::proof]
-#[kani::unwind(114)]
 #[kani::stub(crate::auth::validate_proof, stub_validate_proof)]
 #[kani::stub(crate::auth::rotate_signers, stub_rotate_signers)]
 fn c03_rotate_entry() {
@@ -269,7 +265,7 @@ fn c03_rotate_entry() {
             kani::assert(unsafe { VP_CALLS == 1 && VP_OK && VP_PROOF_OK }, "VERIF:C03:rotation completes only after the submitted proof was validated and accepted");
             kani::assert(unsafe { VP_HASH } == spec_data_hash, "VERIF:C03:proof is checked against keccak(xdr(RotateSigners, exactly the candidate set))");
             kani::assert(bypass || unsafe { VP_LATEST }, "VERIF:C08:without bypass only the newest signer set can authorise a rotation");
-            kani::assert(!bypass || model::auth_of(&operator), "VERIF:C06:bypassing the rotation delay needs the current operator's authorisation");
+            kani::assert(!bypass || model::auth_of(&operator), "VERIF:C06,C09,C03:bypassing the rotation delay needs the current operator's authorisation");
             kani::assert(unsafe { RS_CALLS == 1 && RS_OK && RS_SET_OK }, "VERIF:C03:exactly the candidate set is installed, once");
             kani::assert(unsafe { RS_VP_CALLS_AT == 1 }, "VERIF:C03:the set is installed only after proof validation");
             kani::assert(unsafe { RS_ENFORCE } == !bypass, "VERIF:C09:the delay is enforced exactly when the operator does not bypass it");
@@ -285,7 +281,6 @@ fn c03_rotate_entry() {
 
 // HARNESS props=C01 tier=quick profile=gw_rot shape="standalone proof check entry point"
 #[kani::proof]
-#[kani::unwind(114)]
 #[kani::stub(crate::auth::validate_proof, stub_validate_proof)]
 fn c01_validate_proof_entry() {
     let env = Env::default();
@@ -302,7 +297,6 @@ fn c01_validate_proof_entry() {
 
 // HARNESS props=C03,C06,C08,C09 tier=quick profile=gw_init shape="AxelarGateway::__constructor with one initial set: roles and configuration land where they belong"
 #[kani::proof]
-#[kani::unwind(114)]
 fn c03_gateway_constructor() {
     let env = Env::default();
     let owner = any::address(4);
@@ -340,7 +334,6 @@ fn c03_gateway_constructor() {
 
 // HARNESS props=C03 tier=quick profile=gw_rot1 shape="lookup queries on an arbitrary seeded state"
 #[kani::proof]
-#[kani::unwind(114)]
 fn c03_lookup_queries() {
     let env = Env::default();
     let e: u64 = kani::any();
